@@ -11,6 +11,7 @@ import (
 	"encoding/json"
 	"fmt"
 	"math/rand"
+	"os"
 	"runtime"
 	"syscall"
 	"time"
@@ -264,8 +265,24 @@ func (c *c06) run(rc RobCase) {
 
 func jsonMutations(r *rand.Rand, doc []byte, n int) [][]byte {
 	var out [][]byte
-	for i := 0; i <= len(doc) && len(out) < n; i += 1 + len(doc)/40 {
+	// every truncation point (documents beyond 600 bytes: evenly spread ones)
+	step := 1
+	if len(doc) > 600 {
+		step = 1 + len(doc)/300
+	}
+	for i := 0; i <= len(doc); i += step {
 		out = append(out, append([]byte(nil), doc[:i]...))
+	}
+	// the input ends inside a token: every kind of value start right where a value is expected
+	tails := []string{"0", "-", "-0", "1", "1.", "1e", "1e+", "0.", "\"", "\"a", "\"\\", "\"\\u00", "t", "tru", "f", "nul", "[", "{", "{\"a\"", "{\"a\":", "[1,"}
+	spots := 0
+	for p := 1; p <= len(doc) && spots < 24; p++ {
+		if c := doc[p-1]; c == ':' || c == '[' || c == ',' {
+			spots++
+			for _, t := range tails {
+				out = append(out, append(append([]byte(nil), doc[:p]...), t...))
+			}
+		}
 	}
 	sub := []byte(`{}[]",:\0-1eE.tfn` + "\x00\x80\xff\x1f")
 	for k := 0; k < n && len(doc) > 0; k++ {
@@ -328,6 +345,9 @@ func c06Main(args map[string]string) {
 		// the thrift fixture's root descriptor and one JSON document of it
 		o := fx.ops[1]
 		c.jt = fxRoot(fx)
+		if args["dump"] == "1" {
+			os.WriteFile(args["out"]+fmt.Sprintf(".doc%d", i), []byte(fmt.Sprintf("DOC json-t i=%d %q\nIDL %s\n", i, o.inputs[0], fx.idl)), 0644)
+		}
 		for k, m := range jsonMutations(r, o.inputs[0], 60) {
 			rc := RobCase{Kind: "json-t", B: B(m), MK: "json"}
 			c.out.Begin(idx-1, map[string]interface{}{"kind": "json-t", "seed": seed, "i": i, "k": k})
